@@ -46,7 +46,7 @@ def main():
             # sanitise: drop trailing parenthetical remarks and a leading `cp demo/… &&` (the demo files are
             # already copied to their place in the worktree)
             import re
-            demo_cmd = re.sub(r"\s+\((?:after|add|run|from)[^)]*\)\s*$", "", demo_cmd)
+            demo_cmd = re.sub(r"\s+\((?:after|add|run|from|copy|with|the|needs|note)[^)]*\)\s*$", "", demo_cmd)
             demo_cmd = re.sub(r"^\s*cp\s+demo/\S+\s+\S+\s*&&\s*", "", demo_cmd)
             rc0, out0 = sh(demo_cmd, cwd=wt, timeout=900) if demo_cmd else (None, "")
             rca, outa = sh(f"git apply {patch}", cwd=wt)
